@@ -179,7 +179,8 @@ fn gen_adjust_x_for_upper_boundary(
         let correction_delta = correction_delta_for_float_type(float_type);
         quote! {
             if x >= #upper_value {
-                x - #correction_delta
+                // The fixed delta vanishes for values of big magnitude, so scale it when necessary.
+                x - (x.abs() * #float_type::EPSILON).max(#correction_delta)
             } else {
                 x
             }
@@ -200,7 +201,8 @@ fn gen_adjust_x_for_lower_boundary(
             if x <= #lower_value {
                 // Since there is no upper boundary, we are free to add any positive value here
                 // to adjust so we can satisfy the exclusive lower boundary.
-                x + #correction_delta
+                // The fixed delta vanishes for values of big magnitude, so scale it when necessary.
+                x + (x.abs() * #float_type::EPSILON).max(#correction_delta)
             } else {
                 x
             }
